@@ -5,7 +5,7 @@
    Gen/ImportsSrc.v holds static facts re-extracted from restorer.go on every run. *)
 From Coq Require Import List String ZArith NArith Bool.
 Import ListNotations.
-From DV Require Import Model.Tree Model.Imports Proofs.ImportsProofs Gen.ImportsSrc.
+From DV Require Import Model.Tree Model.Imports Proofs.ImportsProofs Proofs.ImportsExact Gen.ImportsSrc.
 Local Open Scope string_scope.
 Local Open Scope list_scope.
 
@@ -51,7 +51,67 @@ Theorem C07_blocks_without_additions_are_kept :
   rebuild_blocks required aliases found ordered blocks = (blocks, [], false, false).
 Proof. exact rebuild_noop. Qed.
 
-(* Alias precedence: an entry of the Alias map overrides the alias found in the source. *)
+(* "the import declarations contain each referenced path exactly once": at least once is
+   C07_every_reference_is_bound_by_its_import below; at most once -- a file whose import
+   declarations name no path twice is restored with import declarations that name no path twice,
+   whatever had to be added, renamed, sorted or removed (a source that does import one path twice
+   is the recorded finding duplicate-path-import, C07_duplicate_path_refuted). *)
+Theorem C07_each_path_at_most_once :
+  forall resolve local alias all_blocks used bs del names nb added,
+  update_imports resolve local alias all_blocks used = Done bs del names nb added ->
+  NoDup (spec_paths all_blocks) -> NoDup (spec_paths bs).
+Proof. exact each_path_at_most_once. Qed.
+
+(* The binding clause of the property, for every configuration of blocks, aliases, Alias map,
+   resolver and referenced paths: every referenced non-local path is imported by a spec of the
+   managed blocks and that spec binds exactly the qualifier the restored code writes -- a bare
+   identifier where a dot-import is in effect, otherwise a selector on the non-empty name the spec
+   binds (its alias, or the resolved package name when it has none). *)
+Theorem C07_every_reference_is_bound_by_its_import :
+  forall resolve local alias all_blocks used bs del names nb added,
+  update_imports resolve local alias all_blocks used = Done bs del names nb added ->
+  let blocks := filter (fun b => negb (is_cgo_only b)) all_blocks in
+  NoDup (map b_id blocks) -> (forall b, In b blocks -> b_id b <> 0%N) ->
+  (forall p, p <> "C" -> In p (spec_paths all_blocks) -> In p (spec_paths blocks)) ->
+  (forall p n, resolve p = Some n -> n <> "") ->
+  forall p, In p (in_use local used) -> p <> "C" ->
+  exists b s, In b bs /\ In s (b_specs b) /\ s_path s = p /\
+    ((eff_alias (eff_of local alias all_blocks used) p = "." /\ s_name s = "." /\ rendered_qualifier local names p = None) \/
+     (eff_alias (eff_of local alias all_blocks used) p <> "." /\
+      exists n, n <> "" /\ rendered_qualifier local names p = Some n /\ bound_name resolve s = Some n)).
+Proof. exact reference_is_bound. Qed.
+
+(* Alias precedence, for every source alias table, Alias map and set of referenced paths (both are
+   Go maps: keys are unique): an alias given to the file restorer beats the alias in the source; an
+   empty entry removes the source's alias; without an entry the source's alias stands; "_" never
+   stands for a referenced path. *)
+Theorem C07_alias_map_beats_source_alias_beats_nothing :
+  forall found alias inuse p, NoDup (map fst found) -> NoDup (map fst alias) ->
+  aget (effective_alias found alias inuse) p =
+  match aget alias p with
+  | Some a => if usable inuse p a then Some a
+              else if String.eqb a "" then None else from_source found inuse p
+  | None => from_source found inuse p
+  end.
+Proof. exact effective_alias_precedence. Qed.
+
+(* ... and the effective alias beats the resolved package name: the name that binds an ordinary
+   import is its effective alias when it has one and the resolved name otherwise, followed by a
+   decimal counter only when every smaller candidate is already taken by an import that sorts
+   before it (conflicts renamed deterministically). *)
+Theorem C07_effective_alias_beats_resolved_name :
+  forall resolved names path preferred,
+  let pref := if negb (String.eqb preferred "") then preferred else res_name resolved path in
+  exists k, fst (find_alias resolved names path preferred) = cand pref k /\
+            (forall j, j < k -> mem (cand pref j) (values names) = true /\ cand pref j <> "") /\
+            (k = 0 \/ cand pref 0 <> "").
+Proof. exact chosen_name_prefers_alias. Qed.
+
+(* the table of source aliases the theorem above is about has unique keys *)
+Theorem C07_source_alias_table_is_a_map : forall bs, NoDup (map fst (imports_found bs)).
+Proof. exact imports_found_keys_NoDup. Qed.
+
+(* Alias precedence on a concrete run: an entry of the Alias map overrides the alias found in the source. *)
 Example C07_alias_map_beats_source_alias :
   let blocks := [mkBlock [mkSpec "fmt" "f" 1 SNewLine SNewLine] false 100] in
   match update_imports (fun p => Some p) "self" [("fmt", "g")] blocks ["fmt"] with
@@ -88,3 +148,8 @@ Print Assumptions C07_conflict_loop_finds_a_free_name.
 Print Assumptions C07_import_names_pairwise_distinct.
 Print Assumptions C07_only_required_imports_remain.
 Print Assumptions C07_blocks_without_additions_are_kept.
+Print Assumptions C07_each_path_at_most_once.
+Print Assumptions C07_every_reference_is_bound_by_its_import.
+Print Assumptions C07_alias_map_beats_source_alias_beats_nothing.
+Print Assumptions C07_effective_alias_beats_resolved_name.
+Print Assumptions C07_source_alias_table_is_a_map.
